@@ -76,6 +76,10 @@ class one_space_line:
                 res = "CPP_DIRECTIVE"
         elif self.parts[:2] == [" ", "#"] or self.parts[0] == "#":
             res = "CPP_DIRECTIVE"
+            # "##" is a single token, so it cannot introduce a directive.
+            first = self.parts.index("#")
+            if self.parts[first + 1 : first + 2] == ["#"]:
+                res = "SRC_NONBLANK"
         return res
 
     def flush(self):
